@@ -1645,13 +1645,13 @@ package connect
 //@   ensures res != nil
 //@   ensures rest(d) == [] ==> res == wireTrailers(d)
 //@   doc: "http.Response.Trailer: complete only after the body has been read to io.EOF (net/http documentation)"
-//@ trusted func discard(reader) (res, err)
-//@   requires reader != nil
+//@ func discard(reader) (res, err)
+//@   tags C03, C04, C06
+//@   requires reader != nil && !typeis(reader, "*io.LimitedReader") && !typeis(reader, "*bytes.Buffer")
 //@   assigns rest(reader)
-//@   ensures |old(rest(reader))| <= 4194304 ==> rest(reader) == []
-//@   ensures |old(rest(reader))| <= 4194304 && termerr(reader) == io.EOF ==> res && err == nil
-//@   ensures |old(rest(reader))| > 4194304 ==> !res
-//@   doc: "io.Copy(io.Discard, &io.LimitedReader{R: reader, N: discardLimit}) and, when exactly the limit was consumed, one more one-byte read: reads up to 4 MiB (+1) and throws them away; reports whether the end of the reader was reached (body: stdlib plumbing, trusted; the model identifies 'every byte consumed' with 'end of body seen')"
+//@   ensures |old(rest(reader))| <= 4194304 ==> rest(reader) == []                                          // label: drains-what-is-left-up-to-the-limit
+//@   ensures |old(rest(reader))| <= 4194304 && termerr(reader) == io.EOF ==> res && err == nil             // label: reports-the-end-when-it-reached-it
+//@   ensures |old(rest(reader))| > 4194304 ==> !res                                                        // label: more-than-the-limit-left-is-never-reported-as-drained-however-the-reader-reports-its-end
 //@ func (*grpcClient).NewConn$2(u, call) res
 //@   tags C03, C04, C06
 //@   requires call != nil
@@ -2182,8 +2182,8 @@ package connect
 //@   requires m != nil && m.writer != nil && !pooled(m.writer) && m.codec != nil && m.bufferPool != nil && m.header != nil
 //@   assigns out(m.writer), mapof(m.header), mapvals(m.header)
 //@   ensures res == nil ==> (let d := menc(m.codec, mval(message)) in (if |d| < m.compressMinBytes || m.compressionPool == nil then out(m.writer) == old(out(m.writer)) ++ d else out(m.writer) == old(out(m.writer)) ++ compBy(m.compressionPool.compressors, d)))   // label: body-is-the-encoded-message-compressed-iff-negotiated-and-large-enough
-//@   ensures res == nil && !(|menc(m.codec, mval(message))| < m.compressMinBytes || m.compressionPool == nil) ==> hvals(m.header, "Content-Encoding") == [m.compressionName]   // label: a-compressed-body-is-labelled   // tags: C05, C08
-//@   ensures res == nil && (|menc(m.codec, mval(message))| < m.compressMinBytes || m.compressionPool == nil) ==> !hdom(m.header, "Content-Encoding")   // label: an-uncompressed-body-is-not-labelled-whatever-the-header-map-held   // tags: C05, C08
+//@   ensures res == nil && !(|menc(m.codec, mval(message))| < m.compressMinBytes || m.compressionPool == nil) ==> hvals(m.header, "Content-Encoding") == [m.compressionName]   // label: a-compressed-body-is-labelled   // tags: C01, C05, C08
+//@   ensures res == nil && (|menc(m.codec, mval(message))| < m.compressMinBytes || m.compressionPool == nil) ==> !hdom(m.header, "Content-Encoding")   // label: an-uncompressed-body-is-not-labelled-whatever-the-header-map-held   // tags: C01, C05, C08
 //@   ensures forall k seq :: {mapval(m.header, k)} {mapdom(m.header, k)} k != "Content-Encoding" ==> mapdom(m.header, k) == old(mapdom(m.header, k)) && mapval(m.header, k) == old(mapval(m.header, k))   // label: no-other-header-is-touched
 //@   ensures res != nil ==> coded(res)
 
